@@ -181,3 +181,48 @@ def check_solver_bounds_agree(ctx, rule):
     ba, bb = loop_bounds(a), loop_bounds(b)
     ctx.ob(rule, "compute_d|iteration-bounds-agree", len(ba) == 1 and ba == bb,
            "Newton iteration bounds: pair %s, 3-pool %s (must be one constant each, equal)" % (ba, bb), a.where())
+
+
+def check_no_self_comparison(ctx, rule, v, key):
+    """Convergence tests of an iterative solver compare the new iterate with the PREVIOUS one. When the snapshot of the
+    previous value is taken after the update, both operands have the same provenance: the test compares a value with
+    itself, the loop stops after one step and returns an unconverged value. No ordering comparison in a solver may have
+    identical, non-constant provenance on both sides."""
+    from ..mir import switch_conds
+    from ..dataflow import cond_at
+    bad = []
+    n = 0
+    for b, c, _ in switch_conds(v):
+        if c.kind != "cmp" or c.op not in (">", "<", ">=", "<="):
+            continue
+        at = cond_at(v, c)
+        oa, ob = v.origins_of_operand(c.a, at=at), v.origins_of_operand(c.b, at=at)
+        if not oa or not ob:
+            continue
+        n += 1
+        if oa == ob and any(o.kind == "call" for o in oa):
+            bad.append("line %s: both sides are %s" % (v.line_of_block(b), sorted(map(repr, oa))[:2]))
+    ctx.ob(rule, "%s|iterate-compared-with-previous" % key, n > 0 and not bad,
+           "; ".join(bad) if bad else "%d ordering comparisons, none compares a value with itself" % n, v.where())
+
+
+def check_amp_used_unmodified(ctx, rule, v, amp_param, key, forward_rx=None):
+    """The amplification a solver is given is used as it is: its only consumers are conversions, the product with the
+    number of coins (Ann = amp * n) and forwarding to a sibling solver -- no clamp, cap or rescaling in one solver of a
+    pair that must work on the same curve."""
+    bad = []
+    n = 0
+    for b, t in v.iter_calls():
+        if _TRANSPARENT_RE.search(mname(t)):
+            continue
+        for ai, a in enumerate(t["args"]):
+            os_ = v.origins_of_operand(a, at=v.at_term(b))
+            if os_ and all(o.kind == "param" and o.a == amp_param and not o.proj for o in os_):
+                n += 1
+                name = _short(t)
+                nm = norm_shape((name, ()))[0]
+                if nm == "mul" or name in ("from_u128", "from", "into", "new") or (forward_rx and re.search(forward_rx, mname(t))):
+                    continue
+                bad.append("%s (line %s)" % (name, t.get("ln")))
+    ctx.ob(rule, "%s|amp-used-unmodified" % key, n > 0 and not bad,
+           "amp consumed by %s" % bad if bad else "amp only converted, multiplied by the coin count or forwarded (%d uses)" % n, v.where())
